@@ -282,7 +282,7 @@ func checkC03(c *Ctx) {
 	c.Rule("R11", "a service without a compression section relays values byte for byte (shared with C13.R12): the decompression hook is registered only when a compression configuration exists")
 	checkDecompressOnlyWhenConfigured(c, "R11")
 	c.Rule("R10", "values are relayed as values (shared with C04.R1): the redirect / cluster-down classification of a backend reply is applied to error replies only, to the first word of the error text, case-insensitively")
-	c.withAlias(map[string]string{"R1": "R10", "R2": "", "R3": "", "R4": "", "R5": "", "R6": "", "R7": "", "R8": ""}, func() { checkC04(c) })
+	c.withAlias(map[string]string{"R1": "R10", "R2": "", "R3": "", "R4": "", "R5": "", "R6": "", "R7": "", "R8": "", "R9": "", "R10": "", "R11": ""}, func() { checkC04(c) })
 	c.Rule("R8", "every reply shape is relayed, one message after the other: the decoder's nesting counter is balanced on every path (shared with C11.R4), so no sequence of replies (null arrays included) makes a later well-formed reply fail")
 	c.withAlias(map[string]string{"R4": "R8"}, func() { checkRecursion(c, inputCone(p)) })
 
@@ -656,6 +656,85 @@ func checkClusterNodesParser(c *Ctx, rule string) {
 		}
 	}
 	c.Check(okIncl, rule, "slot range expansion", sl.Pos(), "for i := start; i <= end; i++", "the slot range loop was not found")
+	// which lines make the parser give up on the whole view: a line with fewer than the mandatory fields, an address that
+	// does not split into host and port, and whatever the slot parser rejects. Every other rejection is a line Redis
+	// can print in a healthy cluster - a node whose address was lost is listed as ":0@0 ... noaddr" until somebody runs
+	// CLUSTER FORGET - and one such line fails every refresh round, so the table freezes and a later failover is never
+	// learned.
+	lineFns := []*ssa.Function{fn}
+	if host != fn {
+		lineFns = append(lineFns, host)
+	}
+	if ffn != fn && ffn != host {
+		lineFns = append(lineFns, ffn)
+	}
+	whitelisted := func(a condAtom) string {
+		// the number of fields / the number of parts of a split
+		if lc, ok := a.cmp.X.(*ssa.Call); ok && isBuiltin(lc, "len") {
+			if _, isC := constInt(a.cmp.Y); isC {
+				arg := lc.Call.Args[0]
+				if cl, isCall := arg.(*ssa.Call); isCall && isCallTo(cl, "strings.Split", "strings.SplitN", "strings.Fields") {
+					return "number of parts"
+				}
+				if _, isPrm := arg.(*ssa.Parameter); isPrm {
+					return "number of fields"
+				}
+			}
+		}
+		// the error of a helper or of a conversion
+		if isNilConst(a.cmp.Y) && (a.cmp.Op == token.NEQ) == a.truth {
+			if ex, ok := a.cmp.X.(*ssa.Extract); ok {
+				if _, isCall := ex.Tuple.(*ssa.Call); isCall {
+					return "error of a callee"
+				}
+			}
+			if _, isCall := a.cmp.X.(*ssa.Call); isCall {
+				return "error of a callee"
+			}
+		}
+		return ""
+	}
+	nrej := 0
+	for _, lf := range lineFns {
+		eachInstr(lf, func(b *ssa.BasicBlock, _ int, in ssa.Instruction) {
+			ret, ok := in.(*ssa.Return)
+			if !ok || len(ret.Results) == 0 {
+				return
+			}
+			vals := returnedValues(ret)
+			errV := vals[len(vals)-1]
+			if _, isErr := errV.Type().Underlying().(*types.Interface); !isErr || isNilConst(errV) {
+				return
+			}
+			nrej++
+			site := fmt.Sprintf("%s rejection#%d has a reason the format allows", fnKey(lf), nrej)
+			// every way into the rejecting block is decided by a whitelisted comparison
+			edgeOK := func(atoms []condAtom) bool {
+				for _, a := range atoms {
+					if whitelisted(a) != "" {
+						return true
+					}
+				}
+				return false
+			}
+			// the comparison that decides each way into the rejecting block
+			okAll := len(b.Preds) > 0
+			for _, pred := range b.Preds {
+				var atoms []condAtom
+				if iff, isIf := pred.Instrs[len(pred.Instrs)-1].(*ssa.If); isIf && pred.Succs[0] != pred.Succs[1] {
+					for k := 0; k < 2; k++ {
+						if pred.Succs[k] == b {
+							atoms = append(atoms, impliedAtoms2(iff.Cond, k == 0, 0, false)...)
+						}
+					}
+				}
+				if !edgeOK(atoms) {
+					okAll = false
+				}
+			}
+			c.Check(okAll, rule, site, ret.Pos(), "too few fields, an address without host:port shape, or the error of the slot parser", "the parser gives up on the whole cluster view for a line that Redis prints in a healthy cluster (the test that leads here is neither the field count, nor the host:port split, nor an error of a callee) - e.g. a node whose address was lost is listed as \":0@0 ... noaddr\" until CLUSTER FORGET: every refresh round then fails, the routing table freezes and a later failover is never learned")
+		})
+	}
 }
 
 // checkNoRequestGoroutine (C03.R7): between being read from a connection and being enqueued on a backend queue a
